@@ -67,8 +67,20 @@ ALL = {
    text="Exploration. ortho/frustum/perspective/planar (free functions and struct conversions) against the mapping stated in the property: corner images, affinity, w=-z, perspective == frustum of the symmetric window (independent glFrustum table), to_perspective fields, planar window/near/far/focal point; exactly in Q (Fp for ortho) with named angles for fovy, and within 1e-11 (conditioning-scaled) in f64 including Deg input, fovy=0 and negative fovy for planar. Rejection: a valid tuple with exactly one of the 15 preconditions broken, at the boundary and beyond, must panic (catch_unwind) and the unbroken tuple must not; all 15 reasons are required classes.",
    note=EX+"Valid domain excludes l==r, b==t, n==f and height==0 (division by zero).",
    technique="property-based testing: mapping-predicate oracle (exact Q + f64) and single-fault rejection enumeration", design="6/C10"),
+ "C16": dict(
+   text="Exploration over a completely enumerated configuration space. Every view and conversion of Vector1-4, Point1-3, Matrix2-4 and Quaternion (arrays, tuples, references to both, flat column-major arrays, raw pointers, Index/IndexMut by usize and by every range, mint types incl. EulerAngles<_,IntraXYZ>, map/zip/from_value/extend/truncate/truncate_n/swap_elements, conv::array*) is exercised for every slot and every mutable view, with 12 element types (8 numeric, char, a Copy struct, &str, String where the impl has no numeric bound); out-of-range and inverted indices must panic; all 550 swizzle words are generated by the harness' own build script (counts asserted). Random tags per case guard against accidental agreement.",
+   note=EX+"Parametricity: routing is generic in the element type, so one all-distinct assignment per configuration decides it. Pointer views are dereferenced in bounds only; UB that does not manifest is not detected here (ASan fuzz build in the thorough tier).",
+   technique="property-based testing: exhaustive configuration enumeration with generated tag values against index-table reference", design="6/C16"),
+ "C17": dict(
+   text="Exploration. For every operator impl of vectors, points, matrices, quaternions, angles and bases: by-value, &rhs, &lhs, both-reference and compound-assignment forms must be bit-identical on generated operands (floats from raw bit patterns incl. +-0, subnormals, infinities, NaN identified; integers in the no-overflow range) for all 12 primitive scalars where the impl exists; scalar-on-the-left against the primitive operator per component (12 scalars x 10 compound types, f32/f64 x Quaternion); Sum/Product over values and references against the explicit left fold from zero()/one(); random straight-line programs run by a by-value interpreter and a mixed-form interpreter must end in identical register files.",
+   note=EX+"Product/Sum spellings are compared with the fold from one()/zero(), which is what the statement promises (it differs from a bare binary op in the sign of zero).",
+   technique="property-based testing: differential testing between operator spellings + model-based straight-line programs", design="6/C17"),
+ "C18": dict(
+   text="Exploration over all component positions. For 20 compound types x {f32,f64}: abs_diff_eq/relative_eq/ulps_eq must equal the conjunction of the scalar relation over corresponding components, probed at every position with a partner just inside and just outside the tolerance (absolute, relative, exactly max_ulps / max_ulps+1 steps), plus multi-component perturbations, reflexivity, symmetry and macro-vs-explicit default tolerances; is_finite with NaN/+-inf at every position; is_zero / is_identity / is_diagonal / is_symmetric / is_invertible / is_perpendicular with one element moved just inside/outside the type's default tolerance.",
+   note="Trusted: the scalar approx impls for f32/f64. The matrix types' own default epsilon (1e-6) is used where the statement says 'ulps-comparison of the matrix'. Basis2/3 values are built through their Deserialize impl.",
+   technique="property-based testing: per-position boundary probes against scalar-relation conjunction oracle", design="6/C18"),
 }
-BUILT = ["C01","C02","C03","C04","C05","C06","C07","C08","C09","C10","C11","C12","C13","C14","C15"]
+BUILT = ["C01","C02","C03","C04","C05","C06","C07","C08","C09","C10","C11","C12","C13","C14","C15","C16","C17","C18"]
 CLAIMED = {k: v for k, v in ALL.items() if k in BUILT}
 PENDING = {}
 
